@@ -400,7 +400,10 @@ mod raw {
                             break;
                         }
                     }
-                    Ok((_ident, Payload::Err(e))) => {
+                    Ok((ident, Payload::Err(e))) => {
+                        // the helper is gone: a later read() must not wait
+                        // for it
+                        self.helper_set &= !(ident as u8);
                         return Err(e);
                     }
                     Err(Timeout) => {
